@@ -116,7 +116,7 @@ def describe(cls, name=None):
     derived = own in (AbstractModule, AbstractVector, AbstractPart) or sigt
     s, o, k = enzmod.geometry(cls.cutter)
     return {
-        "name": name or cls.__name__, "role": role, "toks": dna.tokens(st),
+        "name": name or cls.__name__, "role": role, "toks": dna.tokens_or_empty(st),
         "enz": {"site": dna.enc(s), "off": o, "ovh": k},
         "sig": [dna.enc(cls.signature[0].upper()), dna.enc(cls.signature[1].upper())] if sigt else [],
         "flank": bool(derived and role == "module"),
